@@ -255,6 +255,16 @@ def runCacheOp (s : Cache) (kv : KV) : Except String (Cache × Out) := do
   | "riter" => pure (s.iter E false)
   | "iterkeys" => pure (s.iterkeys E false)
   | "riterkeys" => pure (s.iterkeys E true)
+  | "check" =>
+    -- `Cache.check()` on a state the model considers consistent reports nothing (C08/C17):
+    -- counters match, every file-backed row has its file with the recorded size, no orphan file
+    let refOk := s.rows.all (fun r => match r.file with
+      | some f => (match s.fileGet f with | some c => c.size == r.size | none => false)
+      | none => true)
+    let orphanOk := s.files.all (fun p => s.rows.any (fun r => r.file == some p.1) ||
+      s.pending.contains (some p.1) || s.created.contains p.1)
+    let cntOk := s.count == (s.rows.length : Int) && s.size == Cache.sumSizesB s.rows
+    if refOk && orphanOk && cntOk then pure (s, .list []) else pure (s, .exc "Inconsistent")
   | "len" => pure s.len
   | "volume" => pure s.volumeOp
   | "stats" => pure (s.stats (parseBool (kv.getD "enable" "1")) (parseBool (kv.getD "reset" "0")))
